@@ -1,10 +1,76 @@
 import TempestVerif.Drv.Util
-/- line-protocol handlers of property C01 (stub: no commands yet) -/
+import TempestVerif.Model.Pipeline
+/- line-protocol handlers of properties C01 / C02 / C10: the whole-iteration pipeline model at Float.
+
+   pipe.F ratio=<f> n=<nat> tolE=<f> tolB=<f> fuel=<nat> syst=<0|1> tapes=<tape>|<tape>|…
+     tape (warm-up):    D/<draw tags>/<draw logl, `x` = -inf>/<picks>
+     tape (annealing):  A/<resampling uniforms>/<step>+<step>+…        (no step: `-`)
+       step:            <prop tags>~<prop logl, `x` = -inf>~<factors>~<uniforms>
+   → <iter>|<iter>|…#<batch>|<batch>|…#<final evidence | none>      or   error:<k> (iteration k left the model)
+       iter:  <beta>;<ess>;<logz after reweight>;<logz committed>;<idx>;<mask>+<mask>…;<branch>
+       batch: <tags>/<logl>
+-/
 namespace Drv.C01
-open Drv
+open Drv Model.Pipeline Model.Reweight
+
+def parseOptF? (s : String) : Option (Option Float) :=
+  if s == "x" then some none else (parseFloat? s).map some
+
+def parseStep? (s : String) : Option (Step Float) :=
+  match s.splitOn "~" with
+  | [a, b, c, d] => do
+    let pt ← parseNatList? a
+    let pl ← parseList? parseOptF? b
+    let f ← parseList? parseFloat? c
+    let r ← parseList? parseFloat? d
+    pure ⟨pt, pl, f, r⟩
+  | _ => none
+
+def parseTape? (s : String) : Option (Tape Float) :=
+  match s.splitOn "/" with
+  | ["D", a, b, c] => do
+    let tg ← parseNatList? a
+    let l ← parseList? parseOptF? b
+    let p ← parseNatList? c
+    pure ⟨tg, l, p, [], []⟩
+  | ["A", a, b] => do
+    let u ← parseList? parseFloat? a
+    let st ← if b == "-" then some [] else (b.splitOn "+").mapM parseStep?
+    pure ⟨[], [], [], u, st⟩
+  | _ => none
+
+def showMask (m : List Bool) : String := if m.isEmpty then "-" else String.ofList (m.map fun b => if b then '1' else '0')
+
+def showIter (o : IterOut Float) : String :=
+  ";".intercalate [showFloat o.beta, showFloat o.ess, showFloat o.logzRw, showFloat o.logz,
+    showList toString o.idx, (if o.masks.isEmpty then "-" else "+".intercalate (o.masks.map showMask)), o.branch.name]
+
+def pipe (args : List (String × String)) : Option String := do
+  let ratio ← (getArg args "ratio").bind parseFloat?
+  let n ← (getArg args "n").bind String.toNat?
+  let tolE ← (getArg args "tolE").bind parseFloat?
+  let tolB ← (getArg args "tolB").bind parseFloat?
+  let fuel ← (getArg args "fuel").bind String.toNat?
+  let syst ← (getArg args "syst").map (· == "1")
+  let tapes ← (getArg args "tapes").bind fun s => (s.splitOn "|").mapM parseTape?
+  let c : PCfg Float := ⟨⟨ratio, n, none, tolE, tolB, fuel⟩, syst⟩
+  -- run iteration by iteration so that the failing iteration can be named
+  let rec go (s : PState Float) (k : Nat) (acc : List (IterOut Float)) : List (Tape Float) → Sum Nat (PState Float × List (IterOut Float))
+    | [] => .inr (s, acc.reverse)
+    | t :: ts => match iterate c s t with
+      | some (s', o) => go s' (k + 1) (o :: acc) ts
+      | none => .inl k
+  match go init 0 [] tapes with
+  | .inl k => pure s!"error:{k}"
+  | .inr (s, outs) =>
+    let its := "|".intercalate (outs.map showIter)
+    let hs := "|".intercalate (s.hist.map fun b => s!"{showList toString b.tags}/{showList showFloat b.b.logl}")
+    let ev := match finalEvidence s with | some z => showFloat z | none => "none"
+    pure s!"{its}#{hs}#{ev}"
 
 def handle (cmd : String) (args : List (String × String)) : Option String :=
   match cmd with
+  | "pipe.F" => some ((pipe args).getD "bad-op")
   | _ => none
 
 end Drv.C01
